@@ -344,6 +344,17 @@ func (p *Parser) parseObjectLiteral() ast.Expression {
 	}
 
 	for !p.curTokenIs(token.RBRACE) {
+		// the object is never closed: report it instead of looping forever
+		if p.curTokenIs(token.EOF) {
+			p.newError(
+				p.curToken.ErrorLine(),
+				fail.ErrWrongNextToken,
+				token.String(token.RBRACE),
+				token.String(token.EOF),
+			)
+			return nil
+		}
+
 		key := p.curToken.Literal
 
 		if p.peekTokenIs(token.COLON) {
@@ -360,10 +371,13 @@ func (p *Parser) parseObjectLiteral() ast.Expression {
 			break
 		}
 
-		if p.peekTokenIs(token.COMMA) {
-			p.nextToken() // move to ","
-			p.nextToken() // skip ","
+		// a pair must be followed by "," or "}", otherwise
+		// the parser would never move past the current token
+		if !p.expectPeek(token.COMMA) { // move to ","
+			return nil
 		}
+
+		p.nextToken() // skip ","
 	}
 
 	return obj
@@ -973,6 +987,17 @@ func (p *Parser) parseBlockStmt() *ast.BlockStmt {
 	stmt := &ast.BlockStmt{Token: p.curToken}
 
 	for !p.curTokenIs(token.END) {
+		// the block is never closed: report it instead of looping forever
+		if p.curTokenIs(token.EOF) {
+			p.newError(
+				p.curToken.ErrorLine(),
+				fail.ErrWrongNextToken,
+				token.String(token.END),
+				token.String(token.EOF),
+			)
+			break
+		}
+
 		block := p.parseStatement()
 
 		if block != nil {
